@@ -460,18 +460,20 @@ ContentExit ==
   /\ UNCHANGED <<heap, contents, bufs, writer, out, rv, err, mode>>
 
 \* {{include "t" [ctx]}}: scope and context restored by defer
+\* the name may be computed: {{ include . }} takes it from the context (s.n = "@ctx")
 DoInclude(s) ==
-  IF ~HasTmpl(s.n)
+  LET tn == IF s.n = "@ctx" THEN ctx ELSE s.n IN
+  IF ~HasTmpl(tn)
   THEN Raise("template", s.id) /\ UNCHANGED <<frames, heap, cur, ctx, contents, content, bufs, writer, out, rv>>
   ELSE LET ns == NewScope(heap, cur)
-           h2 == [ns.heap EXCEPT ![ns.cur].blocks = s.n]
+           h2 == [ns.heap EXCEPT ![ns.cur].blocks = tn]
            cx == IF s.e.k = "none" THEN [ok |-> TRUE, v |-> ctx, class |-> ""] ELSE Eval(s.e, h2, ns.cur, ctx)
            fi == [Fr("include", <<>>, s) EXCEPT !.cx = ctx, !.hascx = (s.e.k # "none"), !.sc = cur]
        IN /\ heap' = h2 /\ cur' = ns.cur
           /\ IF ~cx.ok
              THEN Raise(cx.class, s.id) /\ frames' = Append(frames, fi) /\ UNCHANGED <<ctx, rv>>
              ELSE /\ ctx' = cx.v /\ rv' = ""
-                  /\ frames' = frames \o <<fi, [Fr("list", TmplNamed(RootOf(s.n)).body, s) EXCEPT !.gsc = ns.cur, !.gcx = cx.v]>>
+                  /\ frames' = frames \o <<fi, [Fr("list", TmplNamed(RootOf(tn)).body, s) EXCEPT !.gsc = ns.cur, !.gcx = cx.v]>>
                   /\ UNCHANGED <<err, mode>>
           /\ UNCHANGED <<contents, content, bufs, writer, out>>
 
@@ -480,6 +482,9 @@ IncludeExit ==
   /\ cur' = F.sc
   /\ frames' = Resume(Pop(frames), rv, TRUE)
   /\ UNCHANGED <<heap, contents, content, bufs, writer, out, rv, err, mode>>
+
+\* a template file that exists in every template set of the harness but does not parse
+BrokenName == "brk"
 
 \* {{ n := exec("t" [, ctx]) }} (s.op = "execlet") and {{ includeIfExists("t" [, ctx]) }} (s.op = "incif")
 DoExec(s) ==
@@ -491,6 +496,9 @@ DoExec(s) ==
      THEN IF isLet
           THEN /\ Raise("template-exec", s.id) /\ heap' = ls.heap /\ cur' = ls.cur /\ frames' = fo
                /\ UNCHANGED <<ctx, contents, content, bufs, writer, out, rv>>
+          ELSE IF s.n2 = BrokenName /\ ~isIE
+          THEN \* includeIfExists of a template that exists but does not parse is an error, not "does not exist"
+               /\ Raise("template-exec", s.id) /\ UNCHANGED <<frames, heap, cur, ctx, contents, content, bufs, writer, out, rv>>
           ELSE IF isIE
           THEN /\ LET w == WriteTo(writer, "V:false", out, bufs) IN out' = w.out /\ bufs' = w.bufs
                /\ frames' = AdvancePC /\ UNCHANGED <<heap, cur, ctx, contents, content, writer, rv, err, mode>>
